@@ -12,6 +12,8 @@ shutil.copy(demo, os.path.join(dst, "demo_test.go.txt"))
 md = open(os.path.join(src, mut + ".md")).read()
 shutil.copy(os.path.join(src, mut + ".md"), os.path.join(dst, "agent_notes.md"))
 pk = [l for l in open(demo) if l.startswith("package ")][0].split()[1]
+if pk.endswith("_test"):
+    pk = pk[:-5]
 d = {"zenodb": ".", "rpcserver": "rpc/server"}.get(pk, pk)
 ver = subprocess.run(["/verif/tools/verify_mutant.sh", "/tmp/wt/" + prop, os.path.join(src, mut + ".diff"), demo], capture_output=True, text=True).stdout.strip().splitlines()[-1]
 meta = {
